@@ -203,9 +203,10 @@ def gen_reduce_case(
         elif func in BOOL:
             kwargs["fill_value"] = False
         elif dt.kind in "iub" and func not in ("mean", "nanmean") + tuple(VAR_FAMILY) + tuple(ORDER):
-            kwargs["fill_value"] = tape.choice("gen.fill", [0, -7, 100])
+            # NaN on an integer result is legal: the result is widened to hold it (dtype promotion inside tasks)
+            kwargs["fill_value"] = tape.choice("gen.fill", [0, -7, 100, math.nan])
             if dt.kind == "u" or dt.kind == "b":
-                kwargs["fill_value"] = tape.choice("gen.fillu", [0, 100])
+                kwargs["fill_value"] = tape.choice("gen.fillu", [0, 100, math.nan] if dt.kind == "u" else [0, 100])
         else:
             kwargs["fill_value"] = tape.choice("gen.fill", [math.nan, math.nan, 0.0, -7.0])
     if fill_choices is not None and expected_mode != "none":
